@@ -102,14 +102,16 @@ def iterLine (s : Store) : String :=
     s!"n={kvs.length} items=[{items}] hints=[{hs}] {fused}"
 
 /-- breakpoints of a piecewise-constant function on [a, b) -/
-def breakpoints (f : Nat → String) (a b : Nat) : String := Id.run do
+def breakpoints (f : Nat → Nat × Nat) (a b : Nat) : String := Id.run do
   let mut out := ""
-  let mut last := ""
+  let mut last : Nat × Nat := (0, 0)
+  let mut first := true
   for i in [a:b] do
     let v := f i
-    if v != last then
-      out := out ++ s!"{i}:{v};"
+    if first || v != last then
+      out := out ++ s!"{i}:{v.1},{v.2};"
       last := v
+      first := false
   return out
 
 def genLine (args : List String) : String :=
@@ -124,13 +126,19 @@ def genLine (args : List String) : String :=
     | _, _, _ => "bad"
   | ["vslotrange", a, b] => match a.toNat?, b.toNat? with
     | some a, some b => breakpoints (fun l =>
-        let (x, y, _) := Gen.valueEncodedPieceSize l; s!"{x + y - l},{valueNeed l}") a b
+        let (x, y, _) := Gen.valueEncodedPieceSize l; (x + y - l, valueNeed l)) a b
     | _, _ => "bad"
   | ["kslotrange", a, b, vo, nx] => match a.toNat?, b.toNat?, vo.toNat?, nx.toNat? with
     | some a, some b, some vo, some nx => breakpoints (fun l =>
         let (x, y, _) := Gen.keyEncodedPieceSize l vo nx
-        s!"{x + y - l},{Gen.roundup keyCfg.sizeAry (x + y)}") a b
+        (x + y - l, Gen.roundup keyCfg.sizeAry (x + y))) a b
     | _, _, _, _ => "bad"
+  | ["krounduprange", a, b] => match a.toNat?, b.toNat? with
+    | some a, some b => breakpoints (fun x => (Gen.roundup keyCfg.sizeAry x, Gen.roundup valCfg.sizeAry x)) a b
+    | _, _ => "bad"
+  | ["caprange", a, b] => match a.toNat?, b.toNat? with
+    | some a, some b => breakpoints (fun x => ((Gen.capacityToBucketsSize x).getD 0, (Gen.bucketsOf (.bucketsSize x)).getD 0)) a b
+    | _, _ => "bad"
   | ["kroundup", x] => match x.toNat? with
     | some x => s!"{Gen.roundup keyCfg.sizeAry x}" | none => "bad"
   | ["vroundup", x] => match x.toNat? with
